@@ -1,4 +1,5 @@
 import PegVerif.Proofs.CompileProofs
+import PegVerif.Proofs.NonVacuity
 /-
   C15 – the grammar compiler always answers: code, or an error – and says so.
   `Compile.errors` (model of the restriction checks of `CodegenGrammar::generate_code`, after fixes
@@ -68,5 +69,89 @@ theorem C15_bad_derive {g : Grammar} {st : Settings} {fuel : Nat} {d : String} (
     accepts g st fuel = false := reject_bad_derive hd h
 theorem C15_include_cycle {g : Grammar} {st : Settings} {fuel : Nat} (h : hasIncludeCycle g fuel = true) :
     accepts g st fuel = false := reject_include_cycle h
+
+/-! ## non-vacuity (BEGIN) -/
+namespace C15_nv
+open Peg.NV
+
+/-! instances: the accepted running example `NV.env0.g`, and for each restriction the grammar
+    `bad r = [r, Num, Word]` with one offending rule `r` in front -/
+def bad (r : Rule) : Grammar := ⟨[.rule r, .rule (ruleNum []), .rule ruleWord]⟩
+theorem mem (r : Rule) : RuleEntry.rule r ∈ (bad r).rules := List.mem_cons_self ..
+def ov (t : String) : Expr := .field (some .override) false t
+
+/-- the accepted case: `accepts` is not constantly `false` -/
+example : accepts env0.g {} 10 = true ∧ errors env0.g {} 10 = [] := ⟨by decide, (C15_accepts_iff _ _ _).mp (by decide)⟩
+
+def rStrExp : Rule := ⟨[.export, .string], "X", .choice [.seq [lit 'x']]⟩
+example : accepts (bad rStrExp) {} 10 = false := C15_string_export (mem _) ⟨rfl, rfl⟩
+example : errors (bad rStrExp) {} 10 = ["@string rules cannot be @export-ed"] := by decide +kernel
+
+def rWs : Rule := ⟨[], "Whitespace", .choice [.seq [.closure (.choice [.seq [lit ' ']]) false]]⟩
+example : accepts (bad rWs) {} 10 = false := C15_skipping_whitespace (mem _) ⟨rfl, rfl⟩
+example : errors (bad rWs) {} 10 =
+    ["The 'Whitespace' rule (and all called rules) must be @no_skip_ws to prevent recursion"] := by decide +kernel
+
+def rMemo : Rule := ⟨[.memoize], "X", .choice [.seq [lit 'x']]⟩
+example : accepts (bad rMemo) { derives := ["Debug"] } 10 = false :=
+  C15_memoize_without_clone (mem _) ⟨rfl, by decide⟩
+example : accepts (bad rMemo) {} 10 = true := by decide
+
+/-- a named field inside a negative lookahead -/
+def rLook : Rule := ⟨[], "X", .choice [.seq [.neg (fld "a" "Num"), lit 'x']]⟩
+example : getFields (bad rLook) 8 (.neg (fld "a" "Num")) =
+    .err "The body of negative lookaheads should not contain named fields" :=
+  C15_fields_in_lookahead (g := bad rLook) (n := 7) (b := fld "a" "Num") (f := ⟨"a", [("Num", false)], .one⟩) (fs := []) rfl
+example : accepts (bad rLook) {} 10 = false :=
+  C15_field_analysis_error (m := "The body of negative lookaheads should not contain named fields") (mem _) rfl
+
+/-- an include of a rule that does not exist -/
+def rIncl : Rule := ⟨[], "X", .choice [.seq [.incl "Nope"]]⟩
+example : getFields (bad rIncl) 8 (.incl "Nope") = .err s!"Could not find normal (not char or extern) rule named {"Nope"}" :=
+  C15_include_missing (g := bad rIncl) (n := 7) rfl
+example : accepts (bad rIncl) {} 10 = false := by decide
+
+/-- override rules -/
+def fOv (ts : List (String × Bool)) (a : Arity) : FieldDesc := ⟨"_override", ts, a⟩
+def rOvExp : Rule := ⟨[.export], "X", .choice [.seq [ov "Num"]]⟩
+example : accepts (bad rOvExp) {} 10 = false :=
+  C15_export_plain_override (f := fOv [("Num", false)] .one) (mem _) rfl rfl rfl ⟨by decide, rfl⟩
+def rOvPos : Rule := ⟨[.position], "X", .choice [.seq [ov "Num"]]⟩
+example : accepts (bad rOvPos) {} 10 = false :=
+  C15_position_plain_override (f := fOv [("Num", false)] .one) (mem _) rfl rfl rfl ⟨by decide, rfl⟩
+/-- (without `@export` / `@position` the same rule is accepted) -/
+example : accepts (bad ⟨[], "X", .choice [.seq [ov "Num"]]⟩) {} 10 = true := by decide
+def rOvEnum : Rule := ⟨[], "X", .choice [.seq [.closure (.choice [.seq [ov "Num"], .seq [ov "Word"]]) false]]⟩
+example : accepts (bad rOvEnum) {} 10 = false :=
+  C15_multitype_override_not_once (f := fOv [("Num", false), ("Word", false)] .multiple) (mem _)
+    (by with_unfolding_all rfl) rfl rfl ⟨by decide, by decide⟩
+def rMix : Rule := ⟨[], "X", .choice [.seq [ov "Num", fld "a" "Word"]]⟩
+example : accepts (bad rMix) {} 10 = false :=
+  C15_mixing (fields := [fOv [("Num", false)] .one, ⟨"a", [("Word", false)], .one⟩]) (mem _) rfl (by decide) rfl (by decide)
+example : errors (bad rMix) {} 10 = ["Mixing simple and override fields is not allowed."] := by decide +kernel
+
+/-- literals -/
+def rCI : Rule := ⟨[], "X", .choice [.seq [.lit true [.chr 'é']]]⟩
+example : compileLit true [.chr 'é'] = .err "Case insensitive matching only works for ascii strings." :=
+  C15_nonascii_insensitive [.chr 'é'] ['é'] rfl (by decide)
+example : accepts (bad rCI) {} 10 = false :=
+  C15_literal_problem (m := "Case insensitive matching only works for ascii strings.") (mem _) (by decide +kernel)
+example : StringItem.toChar (.utf8 ['d', '8', '0', '0']) = .err "Invalid utf-8 codepoint" :=
+  C15_invalid_code_point (n := 0xD800) (by decide) (by decide)
+def rCP : Rule := ⟨[], "X", .choice [.seq [.lit false [.utf8 ['d', '8', '0', '0']]]]⟩
+example : errors (bad rCP) {} 10 = ["Invalid utf-8 codepoint"] := by decide +kernel
+
+/-- names and include cycles -/
+def rSelf : Rule := ⟨[], "self", .choice [.seq [lit 'x']]⟩
+example : accepts (bad rSelf) {} 10 = false := C15_bad_rule_name (mem _) (by decide)
+example : accepts env0.g { derives := ["Debug", "Cl one"] } 10 = false :=
+  C15_bad_derive (d := "Cl one") (by decide) (by decide)
+def gCyc : Grammar := ⟨[.rule ⟨[], "A", .choice [.seq [lit 'a', .incl "B"]]⟩, .rule ⟨[], "B", .choice [.seq [.opt (.incl "A")]]⟩]⟩
+example : hasIncludeCycle gCyc 10 = true := by decide
+example : accepts gCyc {} 10 = false := C15_include_cycle (by decide)
+example : errors gCyc {} 10 = ["includes itself (directly or through other rules)"] := by decide +kernel
+
+end C15_nv
+/-! ## non-vacuity (END) -/
 
 end Peg.Props
